@@ -160,6 +160,11 @@ bool CmpNodePos::operator() (const Node* u, const Node* v) const {
     if (v->pos < u->pos) {
         return false;
     }
+    // Break ties on the variable id so that the result does not depend
+    // on where the nodes happen to be allocated.
+    if (u->v->id != v->v->id) {
+        return u->v->id < v->v->id;
+    }
     return u < v;
 }
 
